@@ -4,7 +4,8 @@ decoration-time checks in front of them.
 Recognised family (everything else -> Skip, the snapshot is used and the correspondence check decides alone):
 
     def safe_[async_]contextmanager(f):
-        <if-chain of inspect tests on f that raise>            -> decoCheck : FnKind -> Option Reject
+        [t = unwrap(f) | inspect.unwrap(f)]                    -> testsOnParam = false when the tests below look at t
+        <if-chain of inspect tests on f (or on t) that raise>  -> decoCheck : FnKind -> Option Reject, testsOnParam
         @wraps(f)                                               -> usesWraps
         [async] def wrapper(*args, **kwargs):
             it = f(*args, **kwargs)                             -> forwardsArgs
@@ -48,14 +49,29 @@ def callee_name(call):
     return None
 
 
+TESTED = set()      # which objects the inspect tests of the function being translated look at: 'param' / 'unwrapped'
+UNWRAPPED = set()   # local names bound to inspect.unwrap(<param>)
+
+
 def compile_test(t, param):
     if isinstance(t, ast.UnaryOp) and isinstance(t.op, ast.Not):
         return f'(!{compile_test(t.operand, param)})'
     if isinstance(t, ast.BoolOp):
         op = ' && ' if isinstance(t.op, ast.And) else ' || '
         return '(' + op.join(compile_test(v, param) for v in t.values) + ')'
-    if isinstance(t, ast.Call) and callee_name(t) in TESTS and len(t.args) == 1 and not t.keywords \
-            and isinstance(t.args[0], ast.Name) and t.args[0].id == param:
+    if isinstance(t, ast.Call) and callee_name(t) in TESTS and len(t.args) == 1 and not t.keywords:
+        a = t.args[0]
+        who = None
+        if isinstance(a, ast.Name) and a.id == param:
+            who = 'param'
+        elif isinstance(a, ast.Name) and a.id in UNWRAPPED:
+            who = 'unwrapped'
+        elif isinstance(a, ast.Call) and callee_name(a) == 'unwrap' and len(a.args) == 1 and not a.keywords \
+                and isinstance(a.args[0], ast.Name) and a.args[0].id == param:
+            who = 'unwrapped'
+        if who is None:
+            raise Skip('decoration check: inspect test on something else than the parameter: ' + ast.dump(t)[:80])
+        TESTED.add(who)
         return f'{TESTS[callee_name(t)]} k'
     if isinstance(t, ast.Constant) and isinstance(t.value, bool):
         return lean_bool(t.value)
@@ -84,6 +100,11 @@ def compile_stmts(stmts, param, k):
         kk = compile_stmts(rest, param, k)
         return f'(if {compile_test(s.test, param)} then {compile_stmts(s.body, param, kk)} else {compile_stmts(s.orelse, param, kk)})'
     if isinstance(s, ast.Pass):
+        return compile_stmts(rest, param, k)
+    if isinstance(s, ast.Assign) and len(s.targets) == 1 and isinstance(s.targets[0], ast.Name) and isinstance(s.value, ast.Call) \
+            and callee_name(s.value) == 'unwrap' and len(s.value.args) == 1 and not s.value.keywords \
+            and isinstance(s.value.args[0], ast.Name) and s.value.args[0].id == param and s.targets[0].id != param:
+        UNWRAPPED.add(s.targets[0].id)          # t = unwrap(f): what a `__wrapped__` chain leads to
         return compile_stmts(rest, param, k)
     raise Skip('decoration check: statement outside the subset: ' + type(s).__name__)
 
@@ -216,7 +237,11 @@ def shape_of(tree, deco_name, want_async):
                     and isinstance(s.value, ast.Constant))
            and not (isinstance(s, ast.AnnAssign) and isinstance(s.target, ast.Name) and s.target.id in shared
                     and (s.value is None or isinstance(s.value, ast.Constant)))]
+    TESTED.clear(); UNWRAPPED.clear()
     check = compile_stmts(pre, param, 'none')
+    if len(TESTED) > 1:
+        raise Skip(f'{deco_name}: some kind tests look at the parameter, some at inspect.unwrap of it')
+    on_param = 'unwrapped' not in TESTED
     after = [s for s in body[widx + 1:] if s not in defs]
     if len(after) != 1 or not isinstance(after[0], ast.Return):
         raise Skip(f'{deco_name}: statements after the inner function are not a single return')
@@ -275,13 +300,13 @@ def shape_of(tree, deco_name, want_async):
     shape = (f'{{ wrapperIsAsync := {lean_bool(is_async)}, forwardsArgs := {lean_bool(forwards)}, cleanupInFinally := {lean_bool(in_finally)},\n'
              f'    cleanup := [{bl}], wrappedBy := .{wrapped}, usesWraps := {lean_bool(uses_wraps)},\n'
              f'    iteratorPerUse := {lean_bool(per_use)} }}')
-    return check, shape
+    return check, shape, on_param
 
 
 def gen_ctxmgr(repo):
     tree = ast.parse(src(repo, REL))
-    sc, ss = shape_of(tree, 'safe_contextmanager', False)
-    ac, as_ = shape_of(tree, 'safe_async_contextmanager', True)
+    sc, ss, sp = shape_of(tree, 'safe_contextmanager', False)
+    ac, as_, ap = shape_of(tree, 'safe_async_contextmanager', True)
     return HEADER.format(rel=REL) + f'''namespace PedVerif.Gen.CtxMgr
 
 /-! fixed preamble (vocabulary of the translation) -/
@@ -337,6 +362,11 @@ def syncDecoCheck (k : FnKind) : Option Reject :=
 /-- `safe_async_contextmanager`: the same -/
 def asyncDecoCheck (k : FnKind) : Option Reject :=
   {ac}
+
+/-- the kind tests of the decoration-time checks look at the object handed to the decorator itself (false: at `inspect.unwrap(f)`, i.e.
+    at whatever a `__wrapped__` chain — `functools.wraps` — leads to) -/
+def syncTestsOnParam : Bool := {lean_bool(sp)}
+def asyncTestsOnParam : Bool := {lean_bool(ap)}
 
 def syncShape : Shape :=
   {ss}
